@@ -69,7 +69,21 @@ func (w *world) oldData(reply *dns.Msg, dsVictimToo bool) (kind, detail string) 
 				if underOrAt(va, owner) && (w.sc.Mode == "withdraw" || v.Serial == 1) {
 					return "soa", secName + ": " + rr.String()
 				}
-			case *dns.NSEC, *dns.NSEC3:
+			case *dns.NSEC:
+				// The NSEC owned by the victim's apex exists on both sides
+				// of the cut: the PARENT's copy (delegation point: no SOA in
+				// the bitmap; it is the parent's DS denial and lives by the
+				// parent's own TTL) and the child's apex NSEC (SOA set).
+				// Only the child's copy was learned through the delegation.
+				if owner == va && !hasType(v.TypeBitMap, dns.TypeSOA) {
+					continue
+				}
+				if underOrAt(va, owner) && w.sc.Mode == "withdraw" {
+					return "denial", secName + ": " + short(rr)
+				}
+			case *dns.NSEC3:
+				// owner = hash.<zone>: below the victim's apex only for the
+				// old zones' own chains, never for the parent's
 				if underOrAt(va, owner) && w.sc.Mode == "withdraw" {
 					return "denial", secName + ": " + short(rr)
 				}
@@ -82,6 +96,15 @@ func (w *world) oldData(reply *dns.Msg, dsVictimToo bool) (kind, detail string) 
 		}
 	}
 	return "", ""
+}
+
+func hasType(bm []uint16, t uint16) bool {
+	for _, x := range bm {
+		if x == t {
+			return true
+		}
+	}
+	return false
 }
 
 func short(rr dns.RR) string {
